@@ -120,8 +120,8 @@ def run(R):
                 for x in n.walk():
                     if isinstance(x, ast.Attribute) and x.attr == 'value' and isinstance(x.value, ast.Name):
                         srcs = cx.sources(n, x.value)
-                        if not any(s.kind == 'expr' and isinstance(s.expr, ast.Call) and callee_attr(s.expr) == 'longest_prefix'
-                                   for s in srcs):
+                        if not any(s.kind == 'expr' and isinstance(s.expr, ast.Call) and isinstance(s.expr.func, ast.Attribute)
+                                   and self_attr(s.expr.func.value, trie) for s in srcs):
                             continue
                         ts = tests_on(cx, x.value.id)
                         removed = {(t.id, lab) for (t, lab) in ts}
